@@ -29,6 +29,10 @@ pub struct Case {
     /// select-hazard cases keep their structured form: under TZ=UTC the exact-or-error oracle of C03 judges silent wraps
     #[serde(default)]
     pub structured: Option<crate::props::c03::Case>,
+    /// json-table cases keep their structured form as well: an INT that comes out as a 64-bit limit where the reference extraction
+    /// has NULL is a silently saturated number
+    #[serde(default)]
+    pub json_case: Option<crate::props::c02::Case>,
 }
 
 pub struct C09;
@@ -136,7 +140,7 @@ impl Property for C09 {
 
     fn generate(&self, t: &mut Tape, ctx: &Ctx) -> Case {
         let format = ["json", "text", "csv"][t.draw(3)].to_string();
-        let mut case = Case { defs: String::new(), query: String::new(), input: Vec::new(), joined_input: Vec::new(), format, kind: String::new(), structured: None };
+        let mut case = Case { defs: String::new(), query: String::new(), input: Vec::new(), joined_input: Vec::new(), format, kind: String::new(), structured: None, json_case: None };
         if t.chance(1, 25) {
             // date_trunc cuts to a boundary of the local clock in every zone (also where the offset changes by half an hour)
             case.kind = "trunc-invariant".into();
@@ -224,6 +228,7 @@ impl Property for C09 {
                 case.defs = c.def.text();
                 case.query = if t.chance(1, 2) { "SELECT * FROM t".into() } else { "SELECT COUNT(*) AS n FROM t".into() };
                 case.input = lines_to_bytes(&c.lines);
+                case.json_case = Some(c);
             }
             _ => {
                 case.kind = "timezone".into();
@@ -274,6 +279,7 @@ impl Property for C09 {
         if t.chance(1, 3) {
             mutate_bytes(t, &mut case.input);
             case.structured = None;
+            case.json_case = None;
         }
         if !case.joined_input.is_empty() && t.chance(1, 4) {
             mutate_bytes(t, &mut case.joined_input);
@@ -358,6 +364,14 @@ impl Property for C09 {
                     if arithmetic && (f.signature.starts_with("missing-error") || f.signature.starts_with("value-mismatch")) {
                         return Err(Failure::new(format!("silent-wrap: {}", f.signature), format!("a number was silently altered instead of reported: {}", f.message)));
                     }
+                }
+            }
+        }
+        if let Some(json_case) = &case.json_case {
+            let mut inner_obs = Obs::default();
+            if let Err(f) = crate::props::c02::C02.check(json_case, ctx, &mut inner_obs) {
+                if f.signature.starts_with("value: json int") && (f.message.contains("Int(9223372036854775807)") || f.message.contains("Int(-9223372036854775808)")) {
+                    return Err(Failure::new("silent-wrap: json int saturated", format!("a number was silently altered instead of reported: {}", f.message)));
                 }
             }
         }
